@@ -14,9 +14,13 @@ EXPLANATION = ("Named arguments. R1 (exhaustive over every generator macro defin
                "stores what the template parser returned for that template. R3: JsonSink::write_log emits exactly one "
                "StreamSink::write_log per call on every path, the payload is cleared first and ends with '}\\n', a template containing "
                "newlines is rewritten before use; the object carries the seven fixed keys and one key/value per named argument in "
-               "list order.")
-NOT_DECIDED = ("The brace scanner and the split-after-format for every template and value (values containing the separator bytes are "
-               "a known dynamic risk), JSON escaping (excluded by the property), equality of text with positional formatting.")
+               "list order. R4 (join/split agreement in _format_and_split_arguments): one placeholder per pair is appended, the "
+               "separator is appended only between placeholders, the splitter searches for that same separator (the whole of it, "
+               "not a part) and skips its full length, the i-th piece is stored as the value of the i-th pair and the remainder as "
+               "the last one; the values are sanitised only after the split (the separator itself is non-printable).")
+NOT_DECIDED = ("The brace scanner for every template, values that contain the whole three-byte separator (a known dynamic risk: R4 "
+               "decides that join and split agree on the separator, not that no value contains it), JSON escaping (excluded by the "
+               "property), equality of text with positional formatting.")
 EXHAUSTIVE = "every QUILL_GENERATE_[NAMED_]FORMAT_STRING_<k> macro that is defined (k = 0..26)"
 ASSUMPTIONS = []
 BW = "quill::detail::BackendWorker::"
@@ -27,6 +31,7 @@ def run(ctx):
     facts = ctx.facts("core.cpp", "A")
     r2(ctx, facts)
     r3(ctx, facts)
+    r4(ctx, facts)
 
 
 def r1(ctx):
@@ -201,3 +206,134 @@ def r3(ctx, facts):
             ok = over and not early and kinds == [',"', "<key>", '":"', "<value>", '"']
         ctx.ob("C19.R3f", site + ":one-pair-per-named-arg", ok,
                "every named argument is appended as ,\"key\":\"value\" in list order", fn=f)
+
+
+def _same_entity(a, b):
+    """do two expressions denote the same separator: the same variable, or equal string literals"""
+    va, vb = var_ref(a), var_ref(b)
+    if va is not None or vb is not None:
+        return va == vb
+    la = [x.get("str") for x in walk(a) if x["k"] == "StringLiteral"]
+    lb = [x.get("str") for x in walk(b) if x["k"] == "StringLiteral"]
+    return bool(la) and la == lb and strip(a, casts=True)["k"] == strip(b, casts=True)["k"]
+
+
+def r4(ctx, facts):
+    f = facts.need(BW + "_format_and_split_arguments", "A")[0]
+    g = f.g
+    site = "_format_and_split_arguments"
+    named = f.rec["params"][1]["did"]
+    decls = f.var_decls()
+    fs = [v for v, d in decls.items() if d.get("name") == "format_string" or (d.get("ty") == "std::string" and v in
+          [var_ref(c["args"][0]) for c in f.calls(r"basic_string<.*>::operator\+=") if c["k"] == "CXXOperatorCallExpr"])]
+    appends = [c for c in f.calls(r"basic_string<.*>::operator\+=") if c["k"] == "CXXOperatorCallExpr" and var_ref(c["args"][0]) in fs]
+    joinloops = [n for n in f.walk() if n["k"] in ("ForStmt", "WhileStmt") and any(in_subtree(a, n.get("body")) for a in appends)]
+    finds = [c for c in f.calls(r"basic_string<.*>::(find|find_first_of)\b")]
+    splitloops = [n for n in f.walk() if n["k"] in ("WhileStmt", "ForStmt") and any(in_subtree(c, n.get("cond")) for c in finds)]
+    if len(joinloops) != 1 or len(splitloops) != 1 or not appends:
+        raise AnalysisBroken(site + ": join loop / split loop not recognised (%d/%d)" % (len(joinloops), len(splitloops)))
+    jl, sl = joinloops[0], splitloops[0]
+    # placeholders vs separators among the appends
+    holes, seps = [], []
+    for a in appends:
+        lit = [x.get("str") for x in walk(a["args"][1]) if x["k"] == "StringLiteral"]
+        if lit and all("{" in t for t in lit):
+            holes.append(a)
+        else:
+            seps.append(a)
+    # R4a: exactly one placeholder per iteration, bounded by named_args.size()
+    body_entry = g.positions(jl["body"]) if False else None
+    hp, sp = npos(f, holes), npos(f, seps)
+    cs = norm_cmp(jl.get("cond"))
+    bound_ok = cs is not None and cs[0] == "<" and any(is_call(x, r"std::vector<.*>::size$") and var_ref(call_obj(x)) == named for x in walk(jl["cond"]))
+    # count placeholders on paths through one iteration: from the loop condition's true edge back to the increment
+    cb = [bid for bid, b in g.blocks.items() if g.term_cond(bid) is not None and in_subtree(g.term_cond(bid), jl["cond"])]
+    one = False
+    if cb and jl.get("inc") is not None:
+        incp = g.positions(jl["inc"])
+        first = [y for (y, lab) in g.succ.get(tnode(g, cb[0]), ()) if lab == "T"]
+        # at least one: the increment is not reachable from the iteration start without a placeholder;
+        # at most one: no placeholder reaches a placeholder without passing the increment
+        one = bool(incp) and bool(hp) and not g.exists_path(first, incp, avoid_nodes=hp) and not any(p in first for p in incp) and \
+            not any(g.exists_path([h], hp, avoid_nodes=incp) for h in hp)
+    ctx.ob("C19.R4a", site + ":one-placeholder-per-pair", bound_ok and one,
+           "the join loop runs over named_args.size() (%s) and appends exactly one placeholder per pair on every path (%s)" % (bound_ok, one), fn=f)
+    # R4b: separator only between placeholders: guarded by i < size - 1
+    ok = len(seps) == 1
+    if ok:
+        guard = [a for a in f.ancestors(seps[0]) if a["k"] == "IfStmt" and in_subtree(seps[0], a["then"])]
+        ok = False
+        if guard:
+            c = strip(guard[0]["cond"], casts=True)
+            nc = norm_cmp(c)
+            minus1 = any(x["k"] == "BinaryOperator" and x["op"] == "-" and const_val(x["rhs"]) == 1 and
+                         any(is_call(y, r"std::vector<.*>::size$") and var_ref(call_obj(y)) == named for y in walk(x["lhs"])) for x in walk(c))
+            plus1 = any(x["k"] == "BinaryOperator" and x["op"] == "+" and 1 in (const_val(x["rhs"]), const_val(x["lhs"])) for x in walk(c)) and \
+                any(is_call(y, r"std::vector<.*>::size$") and var_ref(call_obj(y)) == named for y in walk(c))
+            ok = nc is not None and ((nc[0] == "<" and (minus1 or plus1)) or (nc[0] == "!=" and minus1))
+    ctx.ob("C19.R4b", site + ":separator-between-only", ok,
+           "the separator is appended after every placeholder but the last (i < size - 1): k pairs give k - 1 separators, so the split "
+           "yields exactly k pieces", fn=f)
+    # R4c: the splitter searches for the same separator and skips its whole length
+    ok = len(finds) == 1 and len(seps) == 1
+    why = ""
+    if ok:
+        fc = finds[0]
+        needle = fc["args"][0]
+        same = _same_entity(needle, seps[0]["args"][1])
+        whole = short(fc["callee"]).endswith("::find") and strip(needle, casts=True)["k"] not in ("CharacterLiteral",) and \
+            not any(is_call(x, r"::(front|back|operator\[\]|at|substr|data)$") for x in walk(needle))
+        start_args = fc["args"][1] if len(fc["args"]) > 1 else None
+        startv = var_ref(start_args) if start_args is not None else None
+        endv = None
+        for a in f.walk():
+            if a["k"] == "BinaryOperator" and a["op"] == "=" and in_subtree(fc, a["rhs"]):
+                endv = var_ref(a["lhs"])
+        adv = [a for a in walk(sl["body"]) if a["k"] == "BinaryOperator" and a["op"] == "=" and var_ref(a["lhs"]) == startv and startv is not None]
+        skip = False
+        for a in adv:
+            r = strip(a["rhs"], casts=True)
+            if isnode(r) and r["k"] == "BinaryOperator" and r["op"] == "+":
+                sides = [r["lhs"], r["rhs"]]
+                e_side = [x for x in sides if var_ref(x) == endv and endv is not None]
+                l_side = [x for x in sides if any(is_call(y, r"::(length|size)$") and _same_entity(call_obj(y), needle) for y in walk(x))]
+                skip = bool(e_side) and bool(l_side)
+        ok = same and whole and skip and startv is not None
+        why = "same separator: %s, searched as a whole: %s, next piece starts at end + separator length: %s" % (same, whole, skip)
+    ctx.ob("C19.R4c", site + ":split-on-the-joined-separator", ok,
+           "the splitter looks for exactly the separator that was inserted between the placeholders and resumes after all of it (%s); "
+           "searching for a part of it cuts values that merely contain that byte" % why, fn=f)
+    # R4d: piece i -> value of pair i; remainder -> last pair
+    asg = [c for c in f.calls(r"basic_string<.*>::operator=$") if c["k"] == "CXXOperatorCallExpr" and field_name(c["args"][0]) == "second" and
+           any(var_ref(x) == named for x in walk(c["args"][0]))]
+    in_loop = [a for a in asg if in_subtree(a, sl["body"])]
+    after = [a for a in asg if not in_subtree(a, sl["body"])]
+    ok = len(in_loop) == 1 and len(after) == 1
+    if ok:
+        a = in_loop[0]
+        sub = [x for x in walk(a["args"][1]) if is_call(x, r"basic_string<.*>::substr$")]
+        idx_inc = any(x["k"] == "UnaryOperator" and x.get("op") == "++" and x.get("postfix") for x in walk(a["args"][0])) or \
+            any(x["k"] in ("UnaryOperator", "CompoundAssignOperator") and x.get("op") in ("++", "+=") for x in walk(sl["body"]))
+        ok = bool(sub) and len(sub[0]["args"]) == 2 and var_ref(sub[0]["args"][0]) == startv and idx_inc
+        if ok:
+            ln = strip(sub[0]["args"][1], casts=True)
+            ok = isnode(ln) and ln["k"] == "BinaryOperator" and ln["op"] == "-" and var_ref(ln["lhs"]) == endv and var_ref(ln["rhs"]) == startv
+        b = after[0]
+        sub2 = [x for x in walk(b["args"][1]) if is_call(x, r"basic_string<.*>::substr$")]
+        ok = ok and bool(sub2) and var_ref(sub2[0]["args"][0]) == startv and \
+            (len(sub2[0]["args"]) == 1 or sub2[0]["args"][1]["k"] == "CXXDefaultArgExpr" or
+             any(x["k"] == "DeclRefExpr" and x.get("name", "").endswith("npos") for x in walk(sub2[0]["args"][1])))
+        # both guarded by idx < named_args.size()
+        for x in (a, b):
+            gd = [i for i in f.ancestors(x) if i["k"] == "IfStmt" and in_subtree(x, i["then"])]
+            nc = norm_cmp(gd[0]["cond"]) if gd else None
+            ok = ok and nc is not None and nc[0] == "<" and any(is_call(y, r"std::vector<.*>::size$") and var_ref(call_obj(y)) == named for y in walk(gd[0]["cond"]))
+    ctx.ob("C19.R4d", site + ":pieces-to-pairs-in-order", ok,
+           "piece i = [start, end) becomes the value (.second) of pair i with i advancing by one per piece, the remainder after the last "
+           "separator becomes the value of the next pair, both within bounds", fn=f)
+    # R4e: sanitising happens after the split
+    san = cpos(f, r"::sanitize_non_printable_chars\b")
+    fp = npos(f, finds)
+    ctx.ob("C19.R4e", site + ":sanitise-after-split", bool(san) and bool(fp) and not g.exists_path(san, fp) and
+           not any(is_call(x, r"::sanitize_non_printable_chars\b") for x in walk(jl)),
+           "values are sanitised individually after the split; sanitising the joined string first would escape the separator itself", fn=f)
